@@ -71,6 +71,10 @@ KNOWN = {
     # (kernel, estimator.pyx; reported to C08).  Only relations that move the
     # points at rounding level can see it.
     "haversine-antipodal-nan": True,
+    # with bin_edges=None, points whose values are NaN / no_data (in all fields)
+    # still enter standard_bins (box diameter and Sturges count), masked points
+    # do not: the two encodings of the same missing set get different bins
+    "stdbins-see-nan-points": True,
 }
 
 RT = 1e-12  # relative tolerance for values (rounding of re-ordered sums)
@@ -925,6 +929,12 @@ def check_missing(case, rec):
         r2 = _ve(tags, pos[:, keep], _field_arg(f[:, keep]), None, **kw)
         g2 = _ve(tags, pos, wrap(np.where(miss, 0.0, f)), None, mask=mall.copy(), **kw)
         _same(rec, dict(tags, enc="mask-stdbins"), "maskarg-stdbins", g2, r2)
+        # NaN / no_data points still enter standard_bins (box diameter, Sturges count)
+        if KNOWN["stdbins-see-nan-points"]:
+            rec.exclude("stdbins-see-nan-points")
+        else:
+            g3 = _ve(tags, pos, wrap(fa), None, **kw)
+            _same(rec, dict(tags, enc="nan-stdbins", kind="stdbins_see_nan_points"), "nan-stdbins", g3, r2)
     rec.nontrivial(bool(miss.any()) and _nonempty(ref[2]) >= 2)
 
 
@@ -1043,7 +1053,15 @@ def check_struct(case, rec):
 def gen_sampling(draw, tier="quick"):
     case = draw(g_base(modes=("iso", "iso", "dir", "latlon"), n_min=6, n_max=30))
     n = len(case["pos"][0])
-    case["size"] = draw(st.one_of(st.integers(4, n - 1), st.integers(2, n - 1), st.integers(n - 1, n + 3)))
+    case["size"] = draw(
+        st.one_of(
+            st.integers(4, n - 1),
+            st.integers(1, n - 4).map(lambda k: n - k),
+            st.integers(n // 2, n - 1),
+            st.integers(2, n - 1),
+            st.integers(n, n + 3),
+        )
+    )
     case["seed"] = draw(st.one_of(st.integers(0, 2**32 - 1), st.integers(0, 20)))
     case["mask"] = draw(
         st.one_of(st.none(), st.none(), st.lists(st.integers(0, 4).map(lambda k: k == 0), min_size=n, max_size=n))
@@ -1709,6 +1727,9 @@ def check_axis(case, rec):
     axes = [np.arange(n, dtype=float) for n in shape]
     edges = np.arange(shape[ax] + 1, dtype=float) - 0.5
     edges[0] = 0.25  # lag 0 is not a pair
+    tv = dict(tags, rel="vs-directional")
+    if _ambiguous_struct(shape, shape):
+        tv["kind"] = "struct_equal_axes_as_1d"
     if _ambiguous_struct(shape, shape) and KNOWN["struct-equal-axes-as-1d"]:
         rec.exclude("struct-equal-axes-as-1d")
         ve = (None, base, None)
@@ -1727,7 +1748,7 @@ def check_axis(case, rec):
             direction=[dvec],
             angles_tol=0.05,
         )
-    _vals(rec, dict(tags, rel="vs-directional"), "axis vs directional estimate", ve[1][1:], base[1:])
+    _vals(rec, tv, "axis vs directional estimate", ve[1][1:], base[1:])
     nontrivial = int(np.sum(base > 0)) >= 2
     rec.nontrivial(nontrivial)
 
@@ -1735,15 +1756,15 @@ def check_axis(case, rec):
 # ---------------------------------------------------------------------------
 
 SUBS = [
-    Sub("perm", gen_perm, check_perm, quick=600, thorough=16000, shards_quick=1, shards_thorough=2),
-    Sub("rigid", gen_rigid, check_rigid, quick=1000, thorough=32000, shards_quick=2, shards_thorough=4),
-    Sub("affine", gen_affine, check_affine, quick=600, thorough=16000, shards_quick=1, shards_thorough=2),
-    Sub("missing", gen_missing, check_missing, quick=800, thorough=24000, shards_quick=2, shards_thorough=4),
-    Sub("struct", gen_struct, check_struct, quick=600, thorough=16000, shards_quick=1, shards_thorough=2),
-    Sub("sampling", gen_sampling, check_sampling, quick=600, thorough=16000, shards_quick=1, shards_thorough=2),
-    Sub("angles", gen_angles, check_angles, quick=1000, thorough=32000, shards_quick=2, shards_thorough=4),
-    Sub("geo", gen_geo, check_geo, quick=800, thorough=16000, shards_quick=2, shards_thorough=2),
-    Sub("preproc", gen_preproc, check_preproc, quick=1000, thorough=32000, shards_quick=2, shards_thorough=4),
-    Sub("multi", gen_multi, check_multi, quick=500, thorough=12000, shards_quick=1, shards_thorough=2),
-    Sub("axis", gen_axis, check_axis, quick=500, thorough=12000, shards_quick=1, shards_thorough=2),
+    Sub("perm", gen_perm, check_perm, quick=600, thorough=10000, shards_quick=1, shards_thorough=2),
+    Sub("rigid", gen_rigid, check_rigid, quick=1000, thorough=20000, shards_quick=2, shards_thorough=4),
+    Sub("affine", gen_affine, check_affine, quick=600, thorough=10000, shards_quick=1, shards_thorough=2),
+    Sub("missing", gen_missing, check_missing, quick=800, thorough=16000, shards_quick=2, shards_thorough=4),
+    Sub("struct", gen_struct, check_struct, quick=600, thorough=10000, shards_quick=1, shards_thorough=2),
+    Sub("sampling", gen_sampling, check_sampling, quick=600, thorough=8000, shards_quick=1, shards_thorough=2),
+    Sub("angles", gen_angles, check_angles, quick=1000, thorough=20000, shards_quick=2, shards_thorough=4),
+    Sub("geo", gen_geo, check_geo, quick=800, thorough=10000, shards_quick=2, shards_thorough=2),
+    Sub("preproc", gen_preproc, check_preproc, quick=1000, thorough=20000, shards_quick=2, shards_thorough=4),
+    Sub("multi", gen_multi, check_multi, quick=500, thorough=8000, shards_quick=1, shards_thorough=2),
+    Sub("axis", gen_axis, check_axis, quick=500, thorough=8000, shards_quick=1, shards_thorough=2),
 ]
